@@ -572,4 +572,637 @@ theorem emitReports_stdout_healthy_exit0 (render : Diag → Bytes) (cfg : Cfg) (
     simp at hco
     exact ⟨by rw [← hco.1]; simp, rfl⟩
 
+/-! ### what a failing run leaves behind -/
+
+theorem take_append_left_le {α} (a b : List α) (k : Nat) (hk : k ≤ a.length) : (a ++ b).take k = a.take k := by
+  rw [List.take_append_of_le_length hk]
+
+theorem take_len_add {α} (a b : List α) (k : Nat) : (a ++ b).take (a.length + k) = a ++ b.take k := by
+  rw [List.take_append]
+  rw [List.take_of_length_le (by omega)]
+  congr 2
+  omega
+
+/-- `writeJson`, primary = clean file: whatever the status, the primary holds `c` followed by a prefix of
+    the JSON report that was due on it; the prefix is empty or complete unless the file is size-limited -/
+theorem writeJson_file_any (f : Flags) (reps : Reports) (json : Bool) (cy : Option Handle) (h : Handle)
+    (w : World) (c : Bytes) (hc : Clean w.fs h c) (hcy : ∀ g, cy = some g → g.path ≠ h.path) :
+    ∃ k, (writeJson f reps json cy (.file h) w).world.fs.entry h.path
+        = .file (c ++ (if json && cy.isNone then (jsonRep f reps).bytes else []).take k) ∧
+      ((writeJson f reps json cy (.file h) w).exit ≠ 0 → w.fs.limit h.path = none → cy.isSome) := by
+  unfold writeJson
+  cases json with
+  | false =>
+    refine ⟨0, ?_, ?_⟩
+    · simpa using hc.1
+    · simp
+  | true =>
+    simp only [if_true]
+    cases cy with
+    | none =>
+      simp only [emit_file]
+      obtain ⟨k, hk, hcl, he, hr⟩ := emitFile_spec hc (jsonRep f reps)
+      have hp := (emitFile_frame w h (jsonRep f reps)).2.2.2.1
+      refine ⟨k, ?_, ?_⟩
+      · rw [done_fs, ← hp, hcl.1]; simp
+      · rw [he]
+        intro hne hlim
+        rw [hlim] at hr
+        simp [room] at hr
+        simp [hr] at hne
+    | some g =>
+      have hne := hcy g rfl
+      have hfr := emitFile_frame w g (jsonRep f reps)
+      refine ⟨0, ?_, by simp⟩
+      rw [done_fs, hfr.2.2.2.2 _ (Ne.symm hne), hc.1]; simp
+
+
+/-- both files open, the primary is a clean file: WHATEVER the exit status, the primary holds a prefix
+    of the bytes due on it. If the status is not 0 and the primary is not size-limited, that prefix
+    is empty — or, in cyborg mode only, the complete human report (the JSON write failed afterwards). -/
+theorem afterOpen_file_any (render : Diag → Bytes) (cfg : Cfg) (inp : Input) (reps : Reports)
+    (lg cy : Option Handle) (h : Handle) (w : World)
+    (hc : Clean w.fs h [])
+    (hcy : ∀ g, cy = some g → g.path ≠ h.path) (hlg : ∀ g, lg = some g → g.path ≠ h.path)
+    (hcyb : cy.isSome = cfg.flags.cyborg) :
+    ∃ k, (afterOpen render cfg inp reps (humanOn cfg.flags) (jsonOn cfg.flags) lg cy (.file h) w).world.fs.entry h.path
+        = .file ((primaryBytes cfg.flags reps).take k) ∧
+      ((afterOpen render cfg inp reps (humanOn cfg.flags) (jsonOn cfg.flags) lg cy (.file h) w).exit ≠ 0 →
+        w.fs.limit h.path = none →
+        k = 0 ∨ (cfg.flags.cyborg = true ∧ (primaryBytes cfg.flags reps).take k = (humanRep cfg.flags reps).bytes)) := by
+  unfold afterOpen
+  by_cases hd : cfg.flags.dump = true
+  · simp only [hd, if_true, emit_file]
+    obtain ⟨k, hk, hcl, he, hr⟩ := emitFile_spec hc (dumpRep cfg.flags reps)
+    have hp := (emitFile_frame w h (dumpRep cfg.flags reps)).2.2.2.1
+    refine ⟨k, ?_, ?_⟩
+    · rw [done_fs, ← hp, hcl.1]; simp [primaryBytes, hd]
+    · rw [he]
+      intro hne hlim
+      rw [hlim] at hr
+      simp [room] at hr
+      simp [hr] at hne
+  · have hd' : cfg.flags.dump = false := by simpa using hd
+    simp only [hd', Bool.false_eq_true, if_false]
+    have hnone : (jsonOn cfg.flags && cy.isNone) = (jsonOn cfg.flags && !cfg.flags.cyborg) := by
+      rw [← hcyb]; cases cy <;> simp
+    have key : ∃ k, (writeReports cfg.flags reps (humanOn cfg.flags) (jsonOn cfg.flags) cy (.file h) w).world.fs.entry h.path
+          = .file ((primaryBytes cfg.flags reps).take k) ∧
+        ((writeReports cfg.flags reps (humanOn cfg.flags) (jsonOn cfg.flags) cy (.file h) w).exit ≠ 0 →
+          w.fs.limit h.path = none →
+          k = 0 ∨ (cfg.flags.cyborg = true ∧ (primaryBytes cfg.flags reps).take k = (humanRep cfg.flags reps).bytes)) := by
+      unfold writeReports
+      cases hh : humanOn cfg.flags with
+      | false =>
+        simp only [emitIf, Bool.false_eq_true, if_false]
+        obtain ⟨k, h1, h2⟩ := writeJson_file_any cfg.flags reps (jsonOn cfg.flags) cy h w [] hc hcy
+        refine ⟨k, ?_, ?_⟩
+        · rw [h1, hnone]; simp [primaryBytes, hd', hh]
+        · intro hne hlim
+          have := h2 hne hlim
+          rw [hcyb] at this
+          -- cyborg mode always has the human report on: contradiction with `hh`
+          simp [humanOn, this] at hh
+      | true =>
+        simp only [emitIf, if_true, emit_file]
+        obtain ⟨k1, hk1, hcl, he, hr⟩ := emitFile_spec hc (humanRep cfg.flags reps)
+        have hfr := emitFile_frame w h (humanRep cfg.flags reps)
+        rw [he]
+        by_cases hkk : k1 = (humanRep cfg.flags reps).bytes.length
+        · subst hkk
+          simp only [if_true]
+          rw [List.take_length] at hcl
+          have hcy' : ∀ g, cy = some g → g.path ≠ (emitFile w h (humanRep cfg.flags reps)).2.1.path := by
+            intro g hg; rw [hfr.2.2.2.1]; exact hcy g hg
+          obtain ⟨k, h1, h2⟩ := writeJson_file_any cfg.flags reps (jsonOn cfg.flags) cy _ _ _ hcl hcy'
+          rw [hfr.2.2.2.1] at h1
+          refine ⟨(humanRep cfg.flags reps).bytes.length + k, ?_, ?_⟩
+          · rw [h1, hnone]
+            simp only [primaryBytes, hd', hh, Bool.false_eq_true, if_false, if_true, List.nil_append]
+            rw [take_len_add]
+          · intro hne hlim
+            have hlim' : (emitFile w h (humanRep cfg.flags reps)).1.fs.limit
+                (emitFile w h (humanRep cfg.flags reps)).2.1.path = none := by
+              rw [hfr.2.2.1, hfr.2.2.2.1]; exact hlim
+            have hcs := h2 hne hlim'
+            rw [hcyb] at hcs
+            right
+            refine ⟨hcs, ?_⟩
+            simp only [primaryBytes, hd', hh, Bool.false_eq_true, if_false, if_true, hcs, jsonOn,
+              Bool.not_true, Bool.and_false, List.append_nil]
+            rw [List.take_of_length_le (by omega)]
+        · simp only [hkk, if_false]
+          refine ⟨k1, ?_, ?_⟩
+          · rw [failWith_fs, ← hfr.2.2.2.1, hcl.1]
+            simp only [List.nil_append, primaryBytes, hd', hh, Bool.false_eq_true, if_false, if_true]
+            rw [List.take_append_of_le_length hk1]
+          · intro _ hlim
+            rw [hlim] at hr
+            simp [room] at hr
+            exact absurd hr hkk
+    cases inp with
+    | unprocessable =>
+      refine ⟨0, ?_, by simp⟩
+      simp only [finish_fs, List.take_zero]
+      rw [logErr_entry_other render cfg w lg _ h.path (fun g hg => (hlg g hg).symm)]
+      exact hc.1
+    | unreadable => exact key
+    | ok => exact key
+
+
+theorem writeJson_stdout_healthy_any (f : Flags) (reps : Reports) (json : Bool) (cy : Option Handle)
+    (w : World) (hs : w.stdout.Healthy) :
+    (writeJson f reps json cy .stdout w).world.stdout.out
+      = w.stdout.total ++ (if json && cy.isNone then (jsonRep f reps).bytes else []) ∧
+    ((writeJson f reps json cy .stdout w).exit ≠ 0 → cy.isSome) := by
+  unfold writeJson
+  cases json with
+  | false =>
+    simp only [Bool.false_eq_true, if_false, finish_stdout, Bool.false_and]
+    exact ⟨by simp [stdout_atExit_healthy _ hs, Stdout.total], by simp⟩
+  | true =>
+    simp only [if_true]
+    cases cy with
+    | none =>
+      simp only [emit_stdout]
+      obtain ⟨he, hh, ht⟩ := stdout_write_healthy w.stdout (jsonRep f reps) hs
+      refine ⟨?_, by rw [he]; simp⟩
+      rw [done_stdout]
+      simp only
+      rw [stdout_atExit_healthy _ hh, ht]; simp [Stdout.total]
+    | some g =>
+      refine ⟨?_, by simp⟩
+      rw [done_stdout, emitFile_stdout, stdout_atExit_healthy _ hs]; simp [Stdout.total]
+
+/-- both files open, the primary is an unbounded standard output: a status other than 0 leaves
+    nothing of a report on it — except, in cyborg mode, the COMPLETE human report when the JSON write
+    to the cyborg file failed afterwards -/
+theorem afterOpen_stdout_healthy_fail (render : Diag → Bytes) (cfg : Cfg) (inp : Input) (reps : Reports)
+    (lg cy : Option Handle) (w : World) (hs : w.stdout.Healthy)
+    (hcyb : cy.isSome = cfg.flags.cyborg)
+    (hne : (afterOpen render cfg inp reps (humanOn cfg.flags) (jsonOn cfg.flags) lg cy .stdout w).exit ≠ 0) :
+    (afterOpen render cfg inp reps (humanOn cfg.flags) (jsonOn cfg.flags) lg cy .stdout w).world.stdout.out
+      = w.stdout.total ∨
+    (cfg.flags.cyborg = true ∧ inp ≠ .unprocessable ∧
+     (afterOpen render cfg inp reps (humanOn cfg.flags) (jsonOn cfg.flags) lg cy .stdout w).world.stdout.out
+      = w.stdout.total ++ (humanRep cfg.flags reps).bytes) := by
+  unfold afterOpen at hne ⊢
+  by_cases hd : cfg.flags.dump = true
+  · simp only [hd, if_true, emit_stdout] at hne ⊢
+    obtain ⟨he, _, _⟩ := stdout_write_healthy w.stdout (dumpRep cfg.flags reps) hs
+    rw [he] at hne; simp at hne
+  · have hd' : cfg.flags.dump = false := by simpa using hd
+    simp only [hd', Bool.false_eq_true, if_false] at hne ⊢
+    have key : (writeReports cfg.flags reps (humanOn cfg.flags) (jsonOn cfg.flags) cy .stdout w).exit ≠ 0 →
+        cfg.flags.cyborg = true ∧
+        (writeReports cfg.flags reps (humanOn cfg.flags) (jsonOn cfg.flags) cy .stdout w).world.stdout.out
+          = w.stdout.total ++ (humanRep cfg.flags reps).bytes := by
+      intro hne
+      unfold writeReports at hne ⊢
+      cases hh : humanOn cfg.flags with
+      | false =>
+        simp only [hh, emitIf, Bool.false_eq_true, if_false] at hne ⊢
+        have := (writeJson_stdout_healthy_any cfg.flags reps (jsonOn cfg.flags) cy w hs).2 hne
+        rw [hcyb] at this
+        simp [humanOn, this] at hh
+      | true =>
+        simp only [hh, emitIf, if_true, emit_stdout] at hne ⊢
+        obtain ⟨he, hhl, ht⟩ := stdout_write_healthy w.stdout (humanRep cfg.flags reps) hs
+        rw [he] at hne ⊢
+        simp only at hne ⊢
+        obtain ⟨h1, h2⟩ := writeJson_stdout_healthy_any cfg.flags reps (jsonOn cfg.flags) cy
+          { w with stdout := (w.stdout.write (humanRep cfg.flags reps)).1 } hhl
+        have hcs := h2 hne
+        refine ⟨by rw [← hcyb]; exact hcs, ?_⟩
+        rw [h1]
+        have : cy.isNone = false := by cases cy <;> simp_all
+        simp only [this, Bool.and_false, Bool.false_eq_true, if_false, List.append_nil]
+        simp only [Stdout.total] at ht ⊢
+        exact ht
+    cases inp with
+    | unprocessable =>
+      left
+      simp only [finish_stdout, logErr_stdout]
+      simp [stdout_atExit_healthy _ hs, Stdout.total]
+    | unreadable => right; exact ⟨(key hne).1, by simp, (key hne).2⟩
+    | ok => right; exact ⟨(key hne).1, by simp, (key hne).2⟩
+
+
+/-- the shape of `run` without `--help-markdown`: an early exit with a non-zero status that touched
+    nothing but (possibly) the log file, or `emitReports` in the world after the log file's creation -/
+theorem run_cases (render : Diag → Bytes) (cfg : Cfg) (inp : Input) (reps : Reports) (w : World)
+    (hmd : cfg.helpMarkdown = false) :
+    (∃ c w', c ≠ 0 ∧ run render cfg inp reps w = finish c w' ∧ w'.stdout = w.stdout ∧
+        ∀ q, cfg.logFile ≠ some q → w'.fs.entry q = w.fs.entry q) ∨
+    (∃ w0 lg, openOpt w cfg.logFile = some (w0, lg) ∧ groupCount cfg.flags ≤ 1 ∧ inp ≠ .unreadable ∧
+        run render cfg inp reps w
+          = emitReports render cfg inp reps (humanOn cfg.flags) (jsonOn cfg.flags) lg w0) := by
+  unfold run
+  simp only [hmd, b2n, Bool.false_eq_true, if_false, Nat.add_zero]
+  by_cases hg : groupCount cfg.flags > 1
+  · left
+    exact ⟨2, { w with stderr := w.stderr ++ [.usage] }, by simp, by simp [hg], rfl, fun _ _ => rfl⟩
+  · simp only [hg, if_false]
+    cases hlo : openOpt w cfg.logFile with
+    | none => left; exact ⟨1, _, by simp, rfl, rfl, fun _ _ => rfl⟩
+    | some r =>
+      obtain ⟨w0, lg⟩ := r
+      obtain ⟨hso, _, _, hlg, hent, _⟩ := openOpt_some hlo
+      have hlog : ∀ (d : Diag) q, cfg.logFile ≠ some q →
+          (logErr render cfg w0 lg d).fs.entry q = w.fs.entry q := by
+        intro d q hq
+        rw [logErr_entry_other render cfg w0 lg d q, hent q hq]
+        intro g hg'
+        rw [hlg] at hg'
+        cases hlf : cfg.logFile with
+        | none => rw [hlf] at hg'; simp at hg'
+        | some x =>
+          rw [hlf] at hg' hq; simp at hg'
+          rw [← hg']; simpa using Ne.symm hq
+      simp only
+      split
+      · left; exact ⟨1, _, by simp, rfl, by rw [logErr_stdout, hso], hlog _⟩
+      · split
+        · left; exact ⟨1, _, by simp, rfl, by rw [logErr_stdout, hso], hlog _⟩
+        · cases inp with
+          | unreadable => left; exact ⟨1, _, by simp, rfl, by rw [logErr_stdout, hso], hlog _⟩
+          | unprocessable => right; exact ⟨w0, lg, rfl, by omega, by simp, rfl⟩
+          | ok => right; exact ⟨w0, lg, rfl, by omega, by simp, rfl⟩
+
+
+theorem emitReports_file_any (render : Diag → Bytes) (cfg : Cfg) (inp : Input) (reps : Reports)
+    (lg : Option Handle) (w : World) (p : Path)
+    (hp : cfg.outputFile = some p) (hreg : Regular w.fs p)
+    (hcy : cfg.flags.cyborg = true → cfg.cyborgPath ≠ p) (hlg : ∀ g, lg = some g → g.path ≠ p) :
+    (emitReports render cfg inp reps (humanOn cfg.flags) (jsonOn cfg.flags) lg w).world.fs.entry p = w.fs.entry p ∨
+    ∃ k, (emitReports render cfg inp reps (humanOn cfg.flags) (jsonOn cfg.flags) lg w).world.fs.entry p
+        = .file ((primaryBytes cfg.flags reps).take k) ∧
+      ((emitReports render cfg inp reps (humanOn cfg.flags) (jsonOn cfg.flags) lg w).exit ≠ 0 →
+        w.fs.limit p = none →
+        k = 0 ∨ (cfg.flags.cyborg = true ∧ (primaryBytes cfg.flags reps).take k = (humanRep cfg.flags reps).bytes)) := by
+  unfold emitReports
+  cases hco : openOpt w (if cfg.flags.cyborg = true then some cfg.cyborgPath else none) with
+  | none => left; simp
+  | some r =>
+    obtain ⟨w1, cy⟩ := r
+    right
+    simp only
+    obtain ⟨_, _, hlim, hcy', hent, _⟩ := openOpt_some hco
+    have hpe : w1.fs.entry p = w.fs.entry p := by
+      apply hent
+      split
+      · rename_i hc; intro he; exact hcy hc (by simpa using he)
+      · simp
+    have hreg1 : Regular w1.fs p := regular_of_entry_eq hpe hreg
+    simp only [hp, openPrimary, create_regular hreg1]
+    have hcl : Clean (w1.fs.set p (.file [])) ⟨p, 0⟩ [] := clean_create _ _
+    have hne : ∀ g, cy = some g → g.path ≠ p := by
+      intro g hg
+      rw [hg] at hcy'
+      by_cases hc : cfg.flags.cyborg = true
+      · simp [hc] at hcy'; rw [hcy']; exact hcy hc
+      · simp [hc] at hcy'
+    have hcyb : cy.isSome = cfg.flags.cyborg := by
+      rw [hcy']; cases cfg.flags.cyborg <;> simp
+    obtain ⟨k, h1, h2⟩ := afterOpen_file_any render cfg inp reps lg cy ⟨p, 0⟩
+      { w1 with fs := w1.fs.set p (.file []) } hcl hne hlg hcyb
+    exact ⟨k, h1, fun hne hl => h2 hne (by show w1.fs.limit p = none; rw [hlim]; exact hl)⟩
+
+theorem emitReports_stdout_healthy_fail (render : Diag → Bytes) (cfg : Cfg) (inp : Input) (reps : Reports)
+    (lg : Option Handle) (w : World)
+    (hp : cfg.outputFile = none) (hs : w.stdout.Healthy)
+    (hne : (emitReports render cfg inp reps (humanOn cfg.flags) (jsonOn cfg.flags) lg w).exit ≠ 0) :
+    (emitReports render cfg inp reps (humanOn cfg.flags) (jsonOn cfg.flags) lg w).world.stdout.out
+      = w.stdout.total ∨
+    (cfg.flags.cyborg = true ∧ inp ≠ .unprocessable ∧
+     (emitReports render cfg inp reps (humanOn cfg.flags) (jsonOn cfg.flags) lg w).world.stdout.out
+      = w.stdout.total ++ (humanRep cfg.flags reps).bytes) := by
+  unfold emitReports at hne ⊢
+  cases hco : openOpt w (if cfg.flags.cyborg = true then some cfg.cyborgPath else none) with
+  | none =>
+    left
+    simp only [failWith_stdout]
+    rw [stdout_atExit_healthy _ hs]; rfl
+  | some r =>
+    obtain ⟨w1, cy⟩ := r
+    rw [hco] at hne
+    simp only [hp, openPrimary] at hne ⊢
+    obtain ⟨hso, _, _, hcy', _, _⟩ := openOpt_some hco
+    have hs1 : w1.stdout.Healthy := by rw [Stdout.Healthy, hso]; exact hs
+    have hcyb : cy.isSome = cfg.flags.cyborg := by
+      rw [hcy']; cases cfg.flags.cyborg <;> simp
+    have := afterOpen_stdout_healthy_fail render cfg inp reps lg cy w1 hs1 hcyb hne
+    rw [Stdout.total, hso] at this
+    exact this
+
+/-! ### exit statuses, healthy worlds, single-report runs -/
+
+variable (render : Diag → Bytes) (cfg : Cfg) (inp : Input) (reps : Reports) (w : World)
+
+theorem failWith_exit_mem (w : World) (k : ErrKind) : (failWith w k).exit = 0 ∨ (failWith w k).exit = 1 := by
+  cases k <;> simp
+
+theorem done_exit_mem (w : World) (e : Option ErrKind) : (done w e).exit = 0 ∨ (done w e).exit = 1 := by
+  cases e with
+  | none => simp
+  | some k => simpa using failWith_exit_mem w k
+
+theorem writeJson_exit_mem (f : Flags) (json : Bool) (cy : Option Handle) (out : Writer) (w : World) :
+    (writeJson f reps json cy out w).exit = 0 ∨ (writeJson f reps json cy out w).exit = 1 := by
+  unfold writeJson
+  split
+  · split <;> exact done_exit_mem _ _
+  · simp
+
+theorem afterOpen_exit_mem (human json : Bool) (lg cy : Option Handle) (out : Writer) (w : World) :
+    (afterOpen render cfg inp reps human json lg cy out w).exit = 0 ∨
+    (afterOpen render cfg inp reps human json lg cy out w).exit = 1 := by
+  unfold afterOpen
+  split
+  · exact done_exit_mem _ _
+  · split
+    · simp
+    · unfold writeReports
+      split
+      · exact failWith_exit_mem _ _
+      · exact writeJson_exit_mem _ _ _ _ _ _
+
+theorem emitReports_exit_mem (human json : Bool) (lg : Option Handle) (w : World) :
+    (emitReports render cfg inp reps human json lg w).exit = 0 ∨
+    (emitReports render cfg inp reps human json lg w).exit = 1 := by
+  unfold emitReports
+  split
+  · simp
+  · split
+    · simp
+    · exact afterOpen_exit_mem _ _ _ _ _ _ _ _ _ _
+
+/-! ### healthy worlds: nothing fails that the options and the input do not make fail -/
+
+def IsFile (fs : Fs) (p : Path) : Prop := ∃ c, fs.entry p = .file c
+
+/-- an open handle on an unlimited regular file -/
+def HandleOk (fs : Fs) (g : Handle) : Prop := IsFile fs g.path ∧ fs.limit g.path = none
+
+def WriterOk (w : World) : Writer → Prop
+  | .stdout => w.stdout.Healthy
+  | .file h => HandleOk w.fs h
+
+theorem isFile_write (fs : Fs) (h : Handle) (bs : Bytes) (q : Path) (hq : IsFile fs q) :
+    IsFile (fs.write h bs).1 q := by
+  by_cases hqp : q = h.path
+  · subst hqp
+    obtain ⟨c, hc⟩ := hq
+    unfold Fs.write
+    rw [hc]
+    dsimp only
+    split
+    · exact ⟨c, hc⟩
+    · exact ⟨_, Fs.set_entry_same _ _ _⟩
+  · rw [IsFile, write_entry_other _ _ _ _ hqp]; exact hq
+
+theorem write_ok_unlimited (fs : Fs) (h : Handle) (bs : Bytes) (hh : HandleOk fs h) :
+    (fs.write h bs).2.2 = true := by
+  obtain ⟨⟨c, hc⟩, hl⟩ := hh
+  unfold Fs.write
+  rw [hc, hl]
+  simp [room]
+
+theorem handleOk_write (fs : Fs) (h g : Handle) (bs : Bytes) (hg : HandleOk fs g) :
+    HandleOk (fs.write h bs).1 g :=
+  ⟨isFile_write _ _ _ _ hg.1, by rw [write_limit]; exact hg.2⟩
+
+theorem handleOk_write_self (fs : Fs) (h : Handle) (bs : Bytes) (hg : HandleOk fs h) :
+    HandleOk (fs.write h bs).1 (fs.write h bs).2.1 := by
+  have := handleOk_write fs h h bs hg
+  unfold HandleOk at this ⊢
+  rw [write_path]; exact this
+
+theorem emitFile_ok (w : World) (h : Handle) (r : Rep) (hh : HandleOk w.fs h) :
+    (emitFile w h r).2.2 = none ∧ HandleOk (emitFile w h r).1.fs (emitFile w h r).2.1 ∧
+    (∀ g, HandleOk w.fs g → HandleOk (emitFile w h r).1.fs g) ∧
+    (emitFile w h r).1.stdout = w.stdout := by
+  refine ⟨?_, handleOk_write_self _ _ _ hh, fun g hg => handleOk_write _ _ _ _ hg, rfl⟩
+  show (if (w.fs.write h r.bytes).2.2 = true then none else some ErrKind.other) = none
+  rw [write_ok_unlimited _ _ _ hh]; rfl
+
+theorem emit_ok (w : World) (out : Writer) (r : Rep) (ho : WriterOk w out) :
+    (emit w out r).2.2 = none ∧ WriterOk (emit w out r).1 (emit w out r).2.1 ∧
+    (∀ g, HandleOk w.fs g → HandleOk (emit w out r).1.fs g) := by
+  cases out with
+  | stdout =>
+    obtain ⟨he, hh, _⟩ := stdout_write_healthy w.stdout r ho
+    exact ⟨he, hh, fun g hg => hg⟩
+  | file h =>
+    obtain ⟨he, hh, hg, _⟩ := emitFile_ok w h r ho
+    exact ⟨he, hh, hg⟩
+
+theorem afterOpen_healthy_exit (human json : Bool) (lg cy : Option Handle) (out : Writer) (w : World)
+    (ho : WriterOk w out) (hcy : ∀ g, cy = some g → HandleOk w.fs g) :
+    (afterOpen render cfg inp reps human json lg cy out w).exit
+      = if cfg.flags.dump then 0 else if inp = .unprocessable then 1 else 0 := by
+  unfold afterOpen
+  by_cases hd : cfg.flags.dump = true
+  · simp only [hd, if_true]
+    rw [(emit_ok w out _ ho).1]; rfl
+  · simp only [hd, if_false]
+    have key : (writeReports cfg.flags reps human json cy out w).exit = 0 := by
+      unfold writeReports
+      have hE : (emitIf human w out (humanRep cfg.flags reps)).2.2 = none ∧
+          WriterOk (emitIf human w out (humanRep cfg.flags reps)).1 (emitIf human w out (humanRep cfg.flags reps)).2.1 ∧
+          (∀ g, HandleOk w.fs g → HandleOk (emitIf human w out (humanRep cfg.flags reps)).1.fs g) := by
+        unfold emitIf
+        split
+        · exact emit_ok w out _ ho
+        · exact ⟨rfl, ho, fun g hg => hg⟩
+      rw [hE.1]
+      simp only
+      unfold writeJson
+      split
+      · cases cy with
+        | none =>
+          simp only
+          rw [(emit_ok _ _ _ hE.2.1).1]; rfl
+        | some g =>
+          simp only
+          rw [(emitFile_ok _ g _ (hE.2.2 g (hcy g rfl))).1]; rfl
+      · rfl
+    cases inp with
+    | unprocessable => simp
+    | unreadable => simpa using key
+    | ok => simpa using key
+
+/-- every file the command line names can be created and grown without limit; standard output is unbounded -/
+structure Healthy (cfg : Cfg) (w : World) : Prop where
+  stdout : w.stdout.cap = none
+  log : ∀ l, cfg.logFile = some l → Regular w.fs l
+  cyborg : cfg.flags.cyborg = true → Regular w.fs cfg.cyborgPath ∧ w.fs.limit cfg.cyborgPath = none
+  output : ∀ p, cfg.outputFile = some p → Regular w.fs p ∧ w.fs.limit p = none
+
+theorem regular_set_file (fs : Fs) (q p : Path) (c : Bytes) (hr : Regular fs p) :
+    Regular (fs.set q (.file c)) p := by
+  by_cases hpq : p = q
+  · subst hpq; left; exact ⟨c, by simp⟩
+  · unfold Regular; rw [Fs.set_entry_other _ _ _ _ hpq]; exact hr
+
+theorem isFile_set_file (fs : Fs) (q p : Path) (c : Bytes) (hr : IsFile fs p) :
+    IsFile (fs.set q (.file c)) p := by
+  by_cases hpq : p = q
+  · subst hpq; exact ⟨c, by simp⟩
+  · unfold IsFile; rw [Fs.set_entry_other _ _ _ _ hpq]; exact hr
+
+theorem emitReports_healthy_exit (human json : Bool) (lg : Option Handle) (w : World)
+    (hs : w.stdout.cap = none)
+    (hcy : cfg.flags.cyborg = true → Regular w.fs cfg.cyborgPath ∧ w.fs.limit cfg.cyborgPath = none)
+    (hout : ∀ p, cfg.outputFile = some p → Regular w.fs p ∧ w.fs.limit p = none) :
+    (emitReports render cfg inp reps human json lg w).exit
+      = if cfg.flags.dump then 0 else if inp = .unprocessable then 1 else 0 := by
+  unfold emitReports
+  -- the cyborg file
+  have hopen : ∃ w1 cy, openOpt w (if cfg.flags.cyborg = true then some cfg.cyborgPath else none) = some (w1, cy) ∧
+      w1.stdout = w.stdout ∧ (∀ g, cy = some g → HandleOk w1.fs g) ∧
+      (∀ p, Regular w.fs p → Regular w1.fs p) ∧ w1.fs.limit = w.fs.limit := by
+    by_cases hc : cfg.flags.cyborg = true
+    · obtain ⟨hr, hl⟩ := hcy hc
+      refine ⟨{ w with fs := w.fs.set cfg.cyborgPath (.file []) }, some ⟨cfg.cyborgPath, 0⟩, ?_, rfl, ?_, ?_, rfl⟩
+      · simp [openOpt, hc, create_regular hr]
+      · intro g hg; cases hg
+        exact ⟨⟨[], by simp⟩, hl⟩
+      · intro p hp; exact regular_set_file _ _ _ _ hp
+    · exact ⟨w, none, by simp [openOpt, hc], rfl, by simp, fun _ h => h, rfl⟩
+  obtain ⟨w1, cy, ho, hso, hcyok, hreg, hlim⟩ := hopen
+  rw [ho]
+  simp only
+  -- the primary
+  cases hof : cfg.outputFile with
+  | none =>
+    simp only [openPrimary]
+    exact afterOpen_healthy_exit render cfg inp reps human json lg cy .stdout w1
+      (by show w1.stdout.Healthy; rw [Stdout.Healthy, hso]; exact hs) hcyok
+  | some p =>
+    obtain ⟨hr, hl⟩ := hout p hof
+    simp only [openPrimary, create_regular (hreg p hr)]
+    apply afterOpen_healthy_exit
+    · exact ⟨⟨[], by simp⟩, by show w1.fs.limit p = none; rw [hlim]; exact hl⟩
+    · intro g hg
+      obtain ⟨hf, hll⟩ := hcyok g hg
+      exact ⟨isFile_set_file _ _ _ _ hf, hll⟩
+
+/-- the exit status as a function of the options and the input class only -/
+def exitOf (f : Flags) (i : Input) : Nat :=
+  match cli f i with
+  | .usage => 2
+  | .exit1 => 1
+  | .exit0 _ _ => 0
+
+theorem exitOf_eq (f : Flags) (i : Input) :
+    exitOf f i =
+      if groupCount f > 1 then 2
+      else if f.pretty && !jsonOn f then 1
+      else if f.brief && !(humanOn f || f.dump) then 1
+      else if i = .unreadable then 1
+      else if f.dump then 0
+      else if i = .unprocessable then 1 else 0 := by
+  obtain ⟨h, j, c, d, b, p⟩ := f
+  cases h <;> cases j <;> cases c <;> cases d <;> cases b <;> cases p <;> cases i <;> decide
+
+/-! ### exact statements of the behaviours that contradict the property text -/
+
+/-- only `--cyborg` of the five formats -/
+theorem cyborg_only {f : Flags} (hg : groupCount f ≤ 1) (hc : f.cyborg = true) :
+    f.human = false ∧ f.json = false ∧ f.dump = false := by
+  obtain ⟨h, j, c, d, b, p⟩ := f
+  cases c <;> cases d <;> cases h <;> cases j <;> simp_all [groupCount, b2n]
+
+theorem write_file_unlimited (fs : Fs) (h : Handle) (c bs : Bytes) (he : fs.entry h.path = .file c)
+    (hl : fs.limit h.path = none) (hbs : bs ≠ []) :
+    fs.write h bs = (fs.set h.path (.file (writeAt c h.off bs)), ⟨h.path, h.off + bs.length⟩, true) := by
+  unfold Fs.write
+  rw [he, hl]
+  have : bs.length ≠ 0 := by simpa using hbs
+  simp [room, this]
+
+theorem writeAt_zero (c bs : Bytes) : writeAt c 0 bs = bs ++ c.drop bs.length := by
+  simp [writeAt]
+
+/-- the one report of a non-cyborg run -/
+def soleRep (f : Flags) (reps : Reports) : Rep :=
+  if f.dump then dumpRep f reps else if f.json then jsonRep f reps else humanRep f reps
+
+/-- a non-cyborg run on a processable file, no `--log-file`, no `--output-file`, options accepted:
+    `run` is one `write` of the sole report to standard output followed by `main`'s error handling -/
+theorem run_sole_stdout
+    (hacc : exitOf cfg.flags .ok = 0) (hc : cfg.flags.cyborg = false) (hmd : cfg.helpMarkdown = false)
+    (hlog : cfg.logFile = none) (hout : cfg.outputFile = none) :
+    run render cfg .ok reps w
+      = done { w with stdout := (w.stdout.write (soleRep cfg.flags reps)).1 }
+          (w.stdout.write (soleRep cfg.flags reps)).2 := by
+  rw [exitOf_eq] at hacc
+  by_cases hgn : groupCount cfg.flags > 1
+  · rw [if_pos hgn] at hacc; cases hacc
+  rw [if_neg hgn] at hacc
+  by_cases hp : (cfg.flags.pretty && !jsonOn cfg.flags) = true
+  · rw [if_pos hp] at hacc; cases hacc
+  rw [if_neg hp] at hacc
+  by_cases hb : (cfg.flags.brief && !(humanOn cfg.flags || cfg.flags.dump)) = true
+  · rw [if_pos hb] at hacc; cases hacc
+  have hg1 : groupCount cfg.flags ≤ 1 := by omega
+  simp only [run, hmd, b2n, hgn, hlog, openOpt, hp, hb, hout, emitReports, openPrimary, hc,
+    Bool.false_eq_true, if_false, Nat.add_zero]
+  unfold afterOpen soleRep
+  cases hd : cfg.flags.dump with
+  | true => simp [emit_stdout]
+  | false =>
+    have hh : humanOn cfg.flags = !cfg.flags.json := by simp [humanOn, hc, hd]
+    have hj : jsonOn cfg.flags = cfg.flags.json := by simp [jsonOn, hc]
+    simp only [Bool.false_eq_true, if_false, writeReports, hh, hj]
+    cases hjs : cfg.flags.json with
+    | true => simp [emitIf, writeJson, emit_stdout]
+    | false =>
+      simp only [emitIf, Bool.not_false, if_true, emit_stdout, writeJson, Bool.false_eq_true, if_false]
+      cases (w.stdout.write (humanRep cfg.flags reps)).2 <;> rfl
+
+theorem take_split {α} (l : List α) (k c : Nat) (hk : k ≤ c) :
+    l.take k ++ (l.drop k).take (c - k) = l.take c := by
+  have : c = k + (c - k) := by omega
+  conv => rhs; rw [this]
+  rw [List.take_add]
+
+theorem take_min_length {α} (l : List α) (m : Nat) : l.take (min l.length m) = l.take m := by
+  by_cases h : m ≤ l.length
+  · rw [Nat.min_eq_right h]
+  · have h' : l.length ≤ m := by omega
+    rw [Nat.min_eq_left h', List.take_of_length_le (Nat.le_refl _), List.take_of_length_le h']
+
+/-- `write` on an empty standard output that accepts `c` bytes: everything but the pending tail fits -/
+theorem stdout_write_fits (s : Stdout) (r : Rep) (c : Nat) (he : s.out = [] ∧ s.buf = []) (hc : s.cap = some c)
+    (hfit : r.bytes.length - min r.pend r.bytes.length ≤ c) :
+    (s.write r).2 = none ∧ ((s.write r).1.atExit).out = r.bytes.take c := by
+  have hlen : (r.bytes.take (r.bytes.length - min r.pend r.bytes.length)).length
+      = r.bytes.length - min r.pend r.bytes.length := by
+    rw [List.length_take]; omega
+  unfold Stdout.write
+  simp only [he.1, he.2, List.nil_append, Stdout.room, hc, List.length_nil, Nat.sub_zero, hlen]
+  rw [if_pos (by omega)]
+  refine ⟨rfl, ?_⟩
+  simp only [Stdout.atExit, Stdout.room, hc, hlen]
+  generalize r.bytes.length - min r.pend r.bytes.length = k at *
+  rw [take_min_length, take_split _ _ _ hfit]
+
+/-- … the part before the pending tail does not fit: the error is seen -/
+theorem stdout_write_overflow (s : Stdout) (r : Rep) (c : Nat) (he : s.out = [] ∧ s.buf = []) (hc : s.cap = some c)
+    (hover : c < r.bytes.length - min r.pend r.bytes.length) :
+    (s.write r).2 = some s.kind ∧ ((s.write r).1.atExit).out = r.bytes.take c := by
+  have hlen : (r.bytes.take (r.bytes.length - min r.pend r.bytes.length)).length
+      = r.bytes.length - min r.pend r.bytes.length := by
+    rw [List.length_take]; omega
+  unfold Stdout.write
+  simp only [he.1, he.2, List.nil_append, Stdout.room, hc, List.length_nil, Nat.sub_zero, hlen]
+  rw [if_neg (by omega)]
+  refine ⟨rfl, ?_⟩
+  simp only [Stdout.atExit, List.take_nil, List.append_nil]
+  rw [List.take_take]
+  congr 1
+  omega
+
 end MdModel.Cli
